@@ -76,12 +76,17 @@ theorem crashed_foldl {α : Type} (f : St → α → St) (h : ∀ s a, (f s a).c
   | nil => rfl
   | cons a l ih => simp only [List.foldl_cons, ih, h]
 
+@[simp] theorem crashed_cerNameAndElect (s : St) (cid : Nat) (h : String) : (cerNameAndElect s cid h).1.crashed = s.crashed := by
+  unfold cerNameAndElect
+  have hf : ∀ (l : List Conn) (s : St), (l.foldl (fun s o => connClose s o.id true) s).crashed = s.crashed :=
+    fun l s => crashed_foldl _ (fun s a => crashed_connClose s a.id true) l s
+  dsimp only
+  repeat (first | rfl | split | simp only [hf, crashed_modConn])
+
 @[simp] theorem crashed_receiveCer (s : St) (cid : Nat) (m : AMsg) (info : MsgInfo) :
     (receiveCer s cid m info).1.crashed = s.crashed := by
   unfold receiveCer
-  have hf : ∀ (l : List Conn) (s : St), (l.foldl (fun s o => connClose s o.id true) s).crashed = s.crashed :=
-    fun l s => crashed_foldl _ (fun s a => crashed_connClose s a.id true) l s
-  repeat (first | rfl | split | dsimp only | simp only [crashed_sendMessage, crashed_modConn, crashed_flagReady, crashed_assignPeerConnection, hf])
+  repeat (first | rfl | split | dsimp only | simp only [crashed_sendMessage, crashed_modConn, crashed_flagReady, crashed_assignPeerConnection, crashed_cerNameAndElect])
 
 @[simp] theorem crashed_receiveCea (s : St) (cid : Nat) (m : AMsg) : (receiveCea s cid m).1.crashed = s.crashed := by
   unfold receiveCea
